@@ -61,6 +61,7 @@ class PRun(ulc.Run):
     def __init__(self, rng, mixed=False):
         ulc.Run.__init__(self, rng, mixed)
         self.calls = []
+        self.isonames = []
 
     def _log(self, meth, kw, ok): self.calls.append((meth, kw, ok))
 
@@ -92,6 +93,7 @@ class PRun(ulc.Run):
         if with_iso and exp and length > 0:
             self.isoctr += 1
             kw['iso_path'] = self.rng.choice(self.isodirs) + '/F%05d.;1' % self.isoctr
+            self.isonames.append(kw['iso_path'])
         data = content(length, len(self.ops))
         try:
             self.iso.add_fp(io.BytesIO(data), length, **kw); ok = True
@@ -119,11 +121,22 @@ class PRun(ulc.Run):
         length = self.rng.choice([0, length]) if self.rng.random() < 0.3 else length
         data = content(length, 7000 + self.isoctr)
         kw = {'iso_path': self.rng.choice(self.isodirs) + '/G%05d.;1' % self.isoctr}
+        self.isonames.append(kw['iso_path'])
         self.iso.add_fp(io.BytesIO(data), length, **kw)
         self._log('add_fp', dict(kw, _data=data), True)
         for ino in self.iso.inodes[before:]:
             self.inoid[id(ino)] = 2000 + len(self.inoid)
             self.keep.append(ino)
+
+
+def iso_rmlink(run):
+    """rm_hard_link(iso_path=...) of an ISO9660 name (of a mixed or an ISO9660-only file); the UDF tree stays"""
+    if not run.isonames: return
+    name = run.isonames.pop(run.rng.randrange(len(run.isonames)))
+    try:
+        run.iso.rm_hard_link(iso_path=name); ok = True
+    except pe.PyCdlibException: ok = False
+    run.calls.append(('rm_hard_link', {'iso_path': name}, ok))
 
 
 def replay(iso, calls):
@@ -252,7 +265,12 @@ def one_history(seed):
                 findings.append(('stage %d: object edited after open writes other bytes than the original object' % stage,
                                  first_diff(imgcur, imgA)))
         else: imgcur = imgA
-        B = pycdlib.PyCdlib(); B.open_fp(io.BytesIO(imgcur))
+        B = pycdlib.PyCdlib()
+        try:
+            B.open_fp(io.BytesIO(imgcur))
+        except Exception as err:                     # pycdlib refuses (or crashes on) what it wrote
+            findings.append(('stage %d: open raises' % stage, type(err).__name__, str(err)[:200]))
+            break
         rows, ino0, f2 = parsed_obs(B)
         findings += [('stage %d' % stage,) + x for x in f2]
         cases.append((list(base[0]), base[1], ino0, rows))
@@ -274,7 +292,13 @@ def one_history(seed):
                     if run.tree.find(p) is not None: run.rmlink(p)
                 for k in range(rng.randint(0, 3)):
                     d = rng.choice(run.tree.dirs()); run.add(d + [run.fresh(d, 1, 30)], small_len(rng))
-            replay(B, run.calls[ncalls:])
+            if run.mixed and rng.random() < 0.6:
+                for _ in range(rng.randint(1, 3)): iso_rmlink(run)
+            try:
+                replay(B, run.calls[ncalls:])
+            except AssertionError as err:
+                findings.append(('stage %d: the opened object answers an edit differently' % stage, repr(err.args)[:300]))
+                break
             cur = B
     return cases, findings
 
